@@ -399,8 +399,9 @@ def run_property(prop: Prop, tier: str, seed: int, new_world, timeout_quick=30.0
         "wall_s": round(time.time() - t0, 2),
         "violations": len(vio_lines),
     }
-    os.makedirs(os.path.join(VERIF, "evidence"), exist_ok=True)
-    with open(os.path.join(VERIF, "evidence", f"{prop.id}.json"), "w") as fh:
+    evdir = os.environ.get("PYVC_EVIDENCE_DIR") or os.path.join(VERIF, "evidence")  # mutant self-tests write elsewhere
+    os.makedirs(evdir, exist_ok=True)
+    with open(os.path.join(evdir, f"{prop.id}.json"), "w") as fh:
         json.dump(ev, fh, indent=1, default=str)
 
     for line in vio_lines:
